@@ -403,7 +403,14 @@ def run(ctx: core.Context) -> int:
     for b in beds:
         for i in range(slices):
             items.append((b, ctx.quick, i, slices, ctx.seed, None))
-    # interleave beds so that slow beds are spread over the workers
+    # warm up in the parent (imports, code specialisation) and freeze the heap so that the forked workers do
+    # not copy it page by page during their first garbage collections
+    import gc
+
+    for b in beds:
+        B.BEDS[b](ctx.seed).close()
+    gc.collect()
+    gc.freeze()
     ctx.log(f'{len(beds)} beds x {slices} slices')
     results = core.pmap(work, items, ctx.jobs)
     reps_by_bed: dict[str, dict] = {}
